@@ -24,6 +24,9 @@ def good_messages(rng: random.Random) -> list[bytes]:
     out.append(msg(257, 0x80, [oh, orr, gen.rfc_wire(257, 0, 0x40, b"\x00\x01\x0a\x00\x00\x01"),
                                gen.rfc_wire(266, 0, 0x40, (0).to_bytes(4, "big")),
                                gen.rfc_wire(269, 0, 0x00, b"prod")]))
+    out.append(msg(257, 0x00, [gen.rfc_wire(268, 0, 0x40, (2001).to_bytes(4, "big")), oh, orr,          # CEA
+                               gen.rfc_wire(257, 0, 0x40, b"\x00\x01\x0a\x00\x00\x01"),
+                               gen.rfc_wire(266, 0, 0x40, (0).to_bytes(4, "big")), gen.rfc_wire(269, 0, 0x00, b"prod")]))
     out.append(msg(282, 0x80, [oh, orr, gen.rfc_wire(273, 0, 0x40, (0).to_bytes(4, "big"))]))
     out.append(msg(272, 0xc0, [gen.rfc_wire(263, 0, 0x40, b"s;1;2"), oh, orr,
                                gen.rfc_wire(283, 0, 0x40, b"example.net"),
@@ -113,6 +116,15 @@ def _run_cases(res: Result, rng: random.Random, tier: str, fails: list):
         reals.append(r)
         res.cases += 1
         res.count("kind:" + label)
+        if any(f[5:8] == b"\x00\x01\x01" for _, f in frames):
+            # capabilities-exchange messages in the stream of an established connection: delivery is the same whether the
+            # connection was accepted or dialled
+            r2 = frame_real(chunks, sender=True)
+            if r2 != r:
+                fails.append({"what": "delivered messages of an established connection depend on whether it was accepted or dialled "
+                                      "(the same stream, the same reads)", "line": line[:1200], "real": f"accepted: {r} / dialled: {r2}",
+                              "label": label})
+                return
         dl, closed, spin, resid, died = parse_out(r)
         stream = b"".join(c for c in chunks)
         if died:
